@@ -40,6 +40,55 @@ func isCanonicalUUID(s string) bool {
 	return true
 }
 
+// foreignNames are the entries plantForeign puts into every root: not fs_db's, skipped by the walk and
+// checked separately for being left alone.
+var foreignNames = map[string]bool{"README": true, "lost+found": true, "snapshots-2024": true}
+
+const foreignText = "not a content file\n"
+
+func (w *World) plantForeign() error {
+	for _, root := range w.Cfg.Storage.RootDirs {
+		root = filepath.Clean(root)
+		if err := os.MkdirAll(filepath.Join(root, "lost+found"), 0o755); err != nil {
+			return err
+		}
+		if err := os.MkdirAll(filepath.Join(root, "snapshots-2024"), 0o755); err != nil {
+			return err
+		}
+		if err := os.WriteFile(filepath.Join(root, "README"), []byte(foreignText), 0o644); err != nil {
+			return err
+		}
+		if err := os.WriteFile(filepath.Join(root, "lost+found", "x"), []byte(foreignText), 0o644); err != nil {
+			return err
+		}
+	}
+	return nil
+}
+
+// checkForeign: the planted entries are exactly as they were.
+func (w *World) checkForeign(what string) bool {
+	if !w.Case.Foreign {
+		return true
+	}
+	for _, root := range w.Cfg.Storage.RootDirs {
+		root = filepath.Clean(root)
+		for _, f := range []string{filepath.Join(root, "README"), filepath.Join(root, "lost+found", "x")} {
+			if b, err := os.ReadFile(f); err != nil || string(b) != foreignText {
+				w.R.Failf("%s: %s, which is not fs_db's, is gone or changed (%v)", what, f, err)
+				return false
+			}
+		}
+		for d, n := range map[string]int{filepath.Join(root, "lost+found"): 1, filepath.Join(root, "snapshots-2024"): 0} {
+			ents, err := os.ReadDir(d)
+			if err != nil || len(ents) != n {
+				w.R.Failf("%s: directory %s, which is not fs_db's, is gone or holds %d entries instead of %d (%v)", what, d, len(ents), n, err)
+				return false
+			}
+		}
+	}
+	return true
+}
+
 // WalkRoots inspects the configured roots. withContent also hashes every regular file.
 func WalkRoots(roots []string, withContent bool) Tree {
 	t := Tree{Dirs: map[string]int{}, Hashes: map[[32]byte]int{}, Names: map[[32]byte]string{}}
@@ -55,6 +104,9 @@ func WalkRoots(roots []string, withContent bool) Tree {
 		}
 		for _, e := range ents {
 			p := filepath.Join(root, e.Name())
+			if foreignNames[e.Name()] {
+				continue
+			}
 			if !e.IsDir() {
 				t.Bad = append(t.Bad, fmt.Sprintf("%s: a non-directory directly inside a root", p))
 				continue
